@@ -251,6 +251,14 @@ pub fn stream_family(level: u32) -> Vec<Script> {
             let ast = seq(call(p0, "rec0", vec![], st("$s")), fold(Arg::Stream("$s".into()), "i", body));
             out.push(Script { family: "STREAM".into(), name: sname(&["STREAM", "recursive", p0, p1, shape]), ast, peers: peers3() });
         }
+        // the same recursion with a visit of every value at p0 (C13: values appended while the fold runs are visited too)
+        if level == 0 && p0 == "B" && p1 != "B" {
+            continue;
+        }
+        let step = xor(I::Mismatch(Arg::Lens("i".into(), ".d".into()), Arg::Num(2), Box::new(call(p1, "rec", vec![var("i")], st("$s")))), I::Null);
+        let body = seq(seq(call(p0, "visit", vec![var("i")], Out::None), step), I::Next("i".into()));
+        let ast = seq(call(p0, "rec0", vec![], st("$s")), fold(Arg::Stream("$s".into()), "i", body));
+        out.push(Script { family: "STREAM".into(), name: sname(&["STREAM", "recursive-visit", p0, p1, "seq"]), ast, peers: peers3() });
     }
     out
 }
@@ -371,6 +379,23 @@ pub fn err_family(level: u32) -> Vec<Script> {
                     });
                 }
             }
+        }
+    }
+    // an uncatchable script error: a second call writes the scalar `x` again (ShadowingIsNotAllowed when its
+    // result is applied). C02: such a run returns the previous data, no next peers, no requests.
+    for (p, q) in [("A", "A"), ("A", "B"), ("B", "A")] {
+        let base = || seq(call(p, "f1", vec![], sc("x")), call(q, "f2", vec![], sc("x")));
+        let ctxs: Vec<(&str, I)> = vec![
+            ("top", base()),
+            ("seq-right", seq(call("A", "before", vec![], sc("b")), base())),
+            ("par-right", par(call("B", "other", vec![], Out::None), base())),
+            ("xor-left", xor(base(), handler("A"))),
+        ];
+        for (cname, ast) in ctxs {
+            if level == 0 && p == "B" && cname != "top" {
+                continue;
+            }
+            out.push(Script { family: "ERR".into(), name: sname(&["ERR", "uncatchable-shadowing", cname, p, q]), ast, peers: peers.clone() });
         }
     }
     out
